@@ -1186,8 +1186,13 @@ func (f ForkId) forkId(buf *strings.Builder, start int) (bool, error) {
 				return true, err
 			} else if _, err := buf.WriteRune('/'); err != nil {
 				return true, err
+			} else if alen == 1 {
+				// The only key of its map.  It has always been left out of
+				// the id, which is still unique without it.
+				return f.forkId(buf, start+i+1)
 			}
-			return f.forkId(buf, start+i+1)
+			// Start again from this part, so that its key is written.
+			return f.forkId(buf, start+i)
 		default:
 			panic("invalid source type")
 		}
